@@ -1,6 +1,7 @@
 SPECIFICATION Spec
 CONSTANTS Threads = {1,2}
   N = 2
+  N2 = 2
   Rounds = 2
   Variant = "ResetLate"
 INVARIANT NoEarlyRelease
